@@ -2,6 +2,19 @@
 #[cfg(kani)]
 mod util;
 #[cfg(kani)]
+mod refdec;
+#[cfg(kani)]
+mod stubs;
+#[cfg(kani)]
+#[macro_use]
+mod c02;
+#[cfg(kani)]
+mod c17;
+#[cfg(kani)]
+mod c10;
+#[cfg(kani)]
+mod c01;
+#[cfg(kani)]
 mod c08;
 #[cfg(kani)]
 mod c13;
